@@ -303,10 +303,11 @@ class BaseKFACPreconditioner:
                 # so there is nothing to compute inverses from yet
                 if layer.a_factor is None or layer.g_factor is None:
                     continue
-                layer.compute_a_inv(damping=self.damping)
-                layer.compute_g_inv(damping=self.damping)
-                # As in step(), only the gradient workers of the layer are
+                # As in step(), only the inverse worker of a factor computes
+                # its inverse and only the gradient workers of the layer are
                 # members of the group the inverses are broadcast in
+                if get_rank() == self._assignment.inv_worker(name, 'A'):
+                    layer.compute_a_inv(damping=self.damping)
                 if (
                     self._assignment.broadcast_inverses()
                     and self._assignment.is_grad_worker(name)
@@ -315,6 +316,12 @@ class BaseKFACPreconditioner:
                         src=self._assignment.inv_worker(name, 'A'),
                         group=self._assignment.grad_worker_group(name),
                     )
+                if get_rank() == self._assignment.inv_worker(name, 'G'):
+                    layer.compute_g_inv(damping=self.damping)
+                if (
+                    self._assignment.broadcast_inverses()
+                    and self._assignment.is_grad_worker(name)
+                ):
                     layer.broadcast_g_inv(
                         src=self._assignment.inv_worker(name, 'G'),
                         group=self._assignment.grad_worker_group(name),
